@@ -1,6 +1,7 @@
 package world
 
 import (
+	"strconv"
 	"encoding/json"
 	"fmt"
 
@@ -43,14 +44,24 @@ func (w *World) Kubelet(name, tr string) bool {
 		if p.Status.Phase != corev1.PodRunning || IsReady(p) {
 			return false
 		}
-		return mut(func(p *corev1.Pod) {
-			p.Status.Conditions = []corev1.PodCondition{{Type: corev1.PodReady, Status: corev1.ConditionTrue}}
-		})
+		return mut(func(p *corev1.Pod) { p.Status.Conditions = PodConditions(corev1.ConditionTrue) })
 	case "unready":
 		if !IsReady(p) {
 			return false
 		}
-		return mut(func(p *corev1.Pod) { p.Status.Conditions = nil })
+		// the three ways a Running pod is not Ready: no Ready condition at all, Ready=False (probe failing),
+		// Ready=Unknown (node lost); which one is a function of the pod's history, so replays agree
+		rv, _ := strconv.Atoi(p.ResourceVersion)
+		return mut(func(p *corev1.Pod) {
+			switch rv % 3 {
+			case 0:
+				p.Status.Conditions = nil
+			case 1:
+				p.Status.Conditions = PodConditions(corev1.ConditionFalse)
+			default:
+				p.Status.Conditions = PodConditions(corev1.ConditionUnknown)
+			}
+		})
 	case "fail", "succeed":
 		if terminal || p.Spec.NodeName == "" {
 			return false
